@@ -43,6 +43,11 @@ func (w *replayWindow) check(seq uint48) bool {
 	if diff >= uint48(w.size) {
 		return false
 	}
+	// 位图只有 64 位：更旧的序列号无法判断是否已经收到过（1<<diff 为 0），只能拒绝，
+	// 否则配置了大于 64 的窗口时旧记录会被重复接受
+	if diff >= 64 {
+		return false
+	}
 
 	// 情况3：序列号在窗口内 → 检查是否重复
 	bit := uint64(1) << diff
